@@ -22,11 +22,12 @@ Summary == [ok    |-> [u \in URL |-> Cardinality(OkRegs(u))],
             calls |-> [g \in G |-> CallsOf(g)]]
 SummaryView == <<reg, kms, pend, Summary>>
 
-\* the first-registered supporting client wins: visible when two registrations have both returned before a lookup starts
+\* the first-registered supporting client wins: visible when the only two registrations returned one after the other before a lookup starts
 KmsFirstWins ==
   \A i, j, k \in Ends :
      (/\ hist[i].op.kind = "KmsRegister" /\ hist[j].op.kind = "KmsRegister" /\ hist[k].op.kind = "KmsGet"
       /\ i < StartOf(j) /\ j < StartOf(k)
+      /\ Cardinality({x \in DOMAIN hist : hist[x].ev = "start" /\ hist[x].op.kind = "KmsRegister"}) = 2
       /\ \A x \in DOMAIN hist : hist[x].ev = "start" => hist[x].op.kind # "KmsClear")
        => hist[k].res = hist[i].op.client
 ================================================================================
